@@ -374,8 +374,79 @@ def r5(ctx):
     ctx.ob("R5", "Workflow.load restores every port and step of the workflow", ok, func=wl, node=wl.node, instance="workflow:load")
 
 
-RULES = [("R1", r1), ("R2", r2), ("R3", r3), ("R4", r4), ("R5", r5)]
-FLOORS = {"R1": 400, "R2": 70, "R3": 30, "R4": 5, "R5": 6}
+def _falsy_enum(p, cq) -> bool:
+    c = p.classes.get(cq)
+    if c is None or not any(b.split(".")[-1] in ("Enum", "IntEnum", "Flag", "IntFlag") for b in p.mro(cq)):
+        return False
+    for n in c.node.body:
+        if isinstance(n, ast.Assign) and isinstance(n.value, ast.Constant) and not n.value.value and n.value.value is not None:
+            return True
+    return False
+
+
+def r6(ctx):
+    """(a) Optional values are reconstructed under `is not None`: `V(row[k]) if row[k] else None` loses every legitimate
+    falsy value (an enum member with value 0, 0, '', False); (b) a family `load` restores each saved field once: a
+    field assigned on the loaded object must not also be changed by a mutating method called on it."""
+    p = ctx.prog
+    n = 0
+    for f in p.all_funcs():
+        if f.name not in ("_load", "load") or f.cls is None or "row" not in f.params:
+            continue
+        for x in f.body_nodes():
+            if not (isinstance(x, ast.IfExp) and isinstance(x.orelse, ast.Constant) and x.orelse.value is None):
+                continue
+            body = x.body.value if isinstance(x.body, ast.Await) else x.body
+            if not isinstance(body, ast.Call):
+                continue
+            callee = p.resolve_call(f, body, fanout=False)[0]
+            valueish = callee in ("int", "float", "str", "bool") or _falsy_enum(p, callee)
+            if not valueish:
+                continue
+            n += 1
+            truthy = not (isinstance(x.test, ast.Compare) and any(isinstance(o, (ast.IsNot, ast.NotEq)) for o in x.test.ops))
+            ctx.ob("R6", f"{f.cls.name}.{f.name}: optional `{unparse(body)[:50]}` is reconstructed under an `is not None` test", not truthy, func=f, node=x,
+                   qualname=f.qualname, instance=f"optional:{unparse(body)[:60]}",
+                   message=f"{f.cls.name}.{f.name}: `{unparse(x)[:90]}` tests truthiness: a saved falsy value (e.g. an enum member with value 0) is loaded back as None")
+    ctx.require(n >= 1, "C08.R6: no optional value reconstruction found")
+    # (b) double restore in family loads
+    from ..roles import vars_from
+
+    for cq in FAMILIES + NESTED_FAMILIES:
+        ld = p.cls(cq).methods.get("load")
+        if ld is None:
+            continue
+        objs = vars_from(ld, lambda e: isinstance(e, ast.Call) and isinstance(e.func, ast.Attribute) and e.func.attr == "_load")
+        for o in objs:
+            stored = {t.attr for x in ld.body_nodes() if isinstance(x, (ast.Assign, ast.AnnAssign)) for t in (x.targets if isinstance(x, ast.Assign) else [x.target])
+                      if isinstance(t, ast.Attribute) and isinstance(t.value, ast.Name) and t.value.id == o}
+            for c in ld.calls():
+                if isinstance(c.func, ast.Attribute) and isinstance(c.func.value, ast.Name) and c.func.value.id == o:
+                    m = p.resolve_method(cq, c.func.attr)
+                    if m is None:
+                        continue
+                    mutated = set()
+                    for y in m.body_nodes():
+                        tg = None
+                        if isinstance(y, (ast.Assign, ast.AugAssign)):
+                            tg = y.targets[0] if isinstance(y, ast.Assign) else y.target
+                            while isinstance(tg, ast.Subscript):
+                                tg = tg.value
+                        elif isinstance(y, ast.Call) and isinstance(y.func, ast.Attribute) and y.func.attr in ("append", "extend", "add", "update", "insert", "setdefault", "pop", "remove"):
+                            tg = y.func.value
+                            while isinstance(tg, ast.Subscript):
+                                tg = tg.value
+                        if isinstance(tg, ast.Attribute) and isinstance(tg.value, ast.Name) and tg.value.id == "self":
+                            mutated.add(tg.attr)
+                    twice = sorted(stored & mutated)
+                    ctx.ob("R6", f"{p.cls(cq).name}.load: `{o}.{c.func.attr}(...)` does not touch fields that load() already restored", not twice, func=ld, node=c,
+                           instance=f"double-restore:{c.func.attr}",
+                           message=f"{p.cls(cq).name}.load restores {twice} by assignment and again through `{o}.{c.func.attr}()`, which also mutates them: the loaded object differs from the saved one")
+        ctx.ob("R6", f"{p.cls(cq).name}.load examined for double restoration", True, func=ld, node=ld.node, instance="double-restore:examined", trivial=True)
+
+
+RULES = [("R1", r1), ("R2", r2), ("R3", r3), ("R4", r4), ("R5", r5), ("R6", r6)]
+FLOORS = {"R1": 400, "R2": 70, "R3": 30, "R4": 5, "R5": 6, "R6": 3}
 
 G = "streamflow.workflow.step.GatherStep"
 VARIANTS = [
@@ -393,6 +464,10 @@ VARIANTS = [
     V("builder add_step assigns the id", LCFILE, f"{LC}.WorkflowBuilder.add_step", "self._steps[persistent_id] = step", "step.persistent_id = persistent_id\n    self._steps[persistent_id] = step", "R5", control=True),
     V("deep copy keeps the workflow id", LCFILE, f"{LC}.WorkflowBuilder.load_workflow", "self.workflow.persistent_id = None", "pass", "R5"),
     V("re-loaded step keeps its status", LCFILE, f"{LC}.WorkflowBuilder.load_step", "step.status = Status.WAITING", "pass", "R5"),
+    V("optional enum reconstructed under truthiness", "streamflow/cwl/processor.py", "streamflow.cwl.processor.CWLTokenProcessor._load",
+      "LoadListing(row['load_listing']) if row['load_listing'] is not None else None", "LoadListing(row['load_listing']) if row['load_listing'] else None", "R6"),
+    V("Combinator.load re-attaches inner combinators through add_combinator", STEPF, "streamflow.workflow.step.Combinator.load",
+      "return combinator", "for inner in list(combinator.combinators.values()):\n        combinator.add_combinator(inner, set())\n    return combinator", "R6"),
     # benign
     V("reorder dict keys", STEPF, "streamflow.workflow.step.Combinator._save_additional_params", "'items': self.items, 'workflow': self.workflow.persistent_id", "'workflow': self.workflow.persistent_id, 'items': self.items", None),
     V("params dict built in two statements", STEPF, f"{G}._save_additional_params", "return cast(dict[str, Any], await super()._save_additional_params(database)) | {",
